@@ -83,8 +83,9 @@ int cmdRun(int argc, char** argv) {
 			std::vector<std::string> U;
 			for (auto& t : c["U"].a) U.push_back(t.s);
 			if (!relabel(bytes, U)) return;
-			JArr ju;
-			for (auto& t : U) ju.add(relabelName(t));
+			JArr ju0;
+			for (auto& t : U) ju0.add(relabelName(t));
+			const std::string uRelabelled = ju0.done();
 			// variants: plain load+save; strings of known blocks edited before saving; a copy (constructed / assigned) is saved
 			const char* variants[] = {"plain", "edited", "copied", "assigned", "duplicate-strings", "zero-sized-unknown-only", "shape-order-requested"};
 			const std::string original = bytes;
@@ -93,6 +94,7 @@ int cmdRun(int argc, char** argv) {
 				for (int def = 0; def < 2; def++) {
 					if (vi >= 2 && ((k + def) % 2)) continue; // copies: alternate the save option to bound the work
 					bytes = original;
+					std::string uJson = uRelabelled;
 					if (vi == 4 && !duplicateString(bytes)) continue;
 					if (vi == 5) {
 						// the only block of an unknown type is an empty one (a marker block appended by a tool): the file as
@@ -104,14 +106,15 @@ int cmdRun(int argc, char** argv) {
 						bytes = saveToString(mk, false, false);
 						HeaderInfo hh = parseHeader(bytes);
 						if (!hh.ok || !hh.hasSizes || hh.sizes.empty() || hh.sizes.back() != 0) continue;
-						ju = JArr();
-						ju.add(hh.types[hh.tidx.back()]);
+						JArr j1;
+						j1.add(hh.types[hh.tidx.back()]);
+						uJson = j1.done();
 					}
 					ContentIds ids;
 					NifFile loaded;
 					int rc = loadFromString(loaded, bytes);
 					JObj ev;
-					ev.add("e", "unknown").add("file", c["file"].s).raw("U", ju.done()).add("opt", def ? "default" : "raw").add("variant", variants[vi]).add("load", rc);
+					ev.add("e", "unknown").add("file", c["file"].s).raw("U", uJson).add("opt", def ? "default" : "raw").add("variant", variants[vi]).add("load", rc);
 					if (rc == 0) {
 						ev.add("hasUnknown", loaded.HasUnknown());
 						NifFile copy1(vi == 2 ? loaded : NifFile());
